@@ -196,6 +196,8 @@ class Run:
         from . import conform
         path = os.path.join(ROOT, 'bounded', script)
         t = time.time()
+        if self.tier != 'quick':
+            per = per * 4          # thorough: more recorded executions per function
         keys = sorted({k for u in units for k in u.keys})
         env_keys = ','.join(keys)
         os.environ['VERIF_RECORD_KEYS'] = env_keys
